@@ -1,4 +1,4 @@
 SPECIFICATION Spec
-CONSTANTS FixZ1=FALSE FixQ1=FALSE Procs={"syncdb","syncdb2","disable","snap","enable"}
+CONSTANTS FixZ1=FALSE FixQ1=FALSE FixR=FALSE Procs={"syncdb","syncdb2","disable","snap","enable"}
 INVARIANTS LocksFree NoDeadlock NoLeakAfterCloseK
 CHECK_DEADLOCK FALSE
